@@ -1233,21 +1233,9 @@ def d3_increment(ctx):
                       'the try count or the status of a row is rewritten through update_one', f.loc(n))
 
     # -- a row keeps its count when its URL is found again ----------------------------------
-    nins = 0
-    for f, c in _calls_named(repo, 'insert'):
-        if not f.module.name.startswith('wpull.database') or not c.args or norm_text(c.args[0]) != 'QueuedURL':
-            continue
-        nins += 1
-        pm = U.parents(f.node)
-        par = pm.get(id(c))
-        gp = pm.get(id(par)) if par is not None else None
-        okp = isinstance(par, ast.Attribute) and par.attr == 'prefix_with' and isinstance(gp, ast.Call) and gp.args \
-            and isinstance(gp.args[0], ast.Constant) and gp.args[0].value == 'OR IGNORE'
-        ck.expect(okp, 'C18-D3', f.qual, "insert(QueuedURL).prefix_with('OR IGNORE')",
-                  'a URL that is discovered again replaces its row: status and try count start again (endless retries of a failing URL '
-                  'that keeps being linked)', f.loc(c))
-    if not nins:
-        ck.bad('C18-D3', SQL + '.add_many', "insert(QueuedURL).prefix_with('OR IGNORE')", 'no insert into the queue table found (rule instance missing)')
+    from . import c14 as _c14
+    from .common import RemapCtx as _RemapCtx
+    _c14.d1_inserts(_RemapCtx(ctx, {'C14-D1': 'C18-D3'}))
     acu = repo.func(SES + ':ItemSession.add_child_url')
     for f, c in _calls_named(repo, 'remove_many') + _calls_named(repo, 'remove_one'):
         fwd = f.name in ('remove_many', 'remove_one') and f.module.name.startswith('wpull.database')
